@@ -195,7 +195,7 @@ def corr_plans(ctx, n):
                 add("bw|%d|%d|%d|%d|%s|%s" % (rec["reserved"], rec["extra"], copies[0], copies[1],
                                                ";".join(src_str(s) for s in rec["srcs"]) or "-", ";".join(out_str(o) for o in rec["outs"])),
                     rec["projected"], "blockwiseProjected = general_blockwise(...).projected_mem", small)
-                if rec["copies"] is not None and rec["copies"] != r["spec_copies"]:
+                if rec["copies"] != r["spec_copies"]:
                     ctx.disagree("buffer_copies passed to general_blockwise = get_buffer_copies(spec)", small, r["spec_copies"], rec["copies"])
                 # declared extra: the formula of the op kind (model) vs the value that was passed
                 src0 = rec["srcs"][0]
@@ -344,7 +344,7 @@ def classify(r, o, twin):
         if excess <= bound + tol:
             return "unstack-loads-k-blocks"
         return None
-    comp_slack = (src_max + out_max) if case["compressor"] == "default" else 0
+    comp_slack = (2 * src_max + 2 * out_max) if case["compressor"] == "default" else 0
     itemsize = __import__("numpy").dtype(case["dtype"]).itemsize
     # (1b) kernels whose NumPy implementation makes temporaries larger than the declared extra
     fkw = d.get("func_kw") or {}
@@ -364,11 +364,13 @@ def classify(r, o, twin):
         t = tws[idx] if idx < len(tws) else (tw[0] if tw else None)
         if t is not None:
             if t["peak"] <= t["projected"]:
-                if excess <= src_max + out_max + tol:
+                # per read the compressed and the decoded bytes (they linger while the kernel runs); per written chunk a
+                # contiguous copy, its bytes and the encoded bytes
+                if excess <= 2 * src_max + 2 * out_max + tol:
                     return "compressed-chunk-extra-buffer"
                 return None
             k = classify(dict(twin), t, None)
-            if k is not None and excess <= (t["peak"] - t["projected"]) + src_max + out_max + tol:
+            if k is not None and excess <= (t["peak"] - t["projected"]) + 2 * src_max + 2 * out_max + tol:
                 return k
             return None
     # (3) fused op that reads a stream: predecessors run lazily inside the successor's function
@@ -414,9 +416,10 @@ def evaluate(ctx, results, twins=None):
             ctx.dist["ratio:%s" % ("<0.5" if o["peak"] < 0.5 * o["projected"] else "<0.9" if o["peak"] < 0.9 * o["projected"] else "<=1" if o["peak"] <= o["projected"] else ">1")] += 1
             if o["peak"] > o["projected"]:
                 key = classify(r, o, twins.get(i))
-                ctx.extra.setdefault("oracle_failures_detail", []).append(
-                    {"key": key, "case": r["case"], "node": o["name"], "op_name": o["op_name"], "projected": o["projected"], "peak": o["peak"],
-                     "first_peak": o["first_peak"], "desc": d})
+                if len(ctx.extra.setdefault("oracle_failures_detail", [])) < 60:
+                    ctx.extra["oracle_failures_detail"].append(
+                        {"key": key, "case": r["case"], "node": o["name"], "op_name": o["op_name"], "projected": o["projected"], "peak": o["peak"],
+                         "first_peak": o["first_peak"], "desc": d})
                 ctx.fail("task of %s (%s) allocated %d bytes at peak, projected_mem is %d (ratio %.2f)" %
                          (o["name"], r["case"]["op"], o["peak"], o["projected"], o["peak"] / o["projected"]), small_case(r, o), key=key)
 
@@ -434,7 +437,7 @@ def measure(ctx, cases):
 
 
 def oracle(ctx):
-    n = ctx.budget(24, 260)
+    n = ctx.budget(24, 150)
     cases = sample_cases(ctx, n)
     cases.append(witness_unstack())
     t0 = ctx.elapsed()
@@ -460,7 +463,27 @@ def search(ctx):
                 for fuse in (False, True):
                     tight.append({"op": opn, "geom": g, "dtype": dt, "fuse": fuse, "compressor": "none", "chunk_bytes": CHUNK,
                                   "input": "zarr", "data": "random", "seed": ctx.seed})
-    first = [c for c in tight if c["geom"] == "square"]
-    rest = [c for c in tight if c["geom"] != "square"]
+    first = [c for c in tight if c["geom"] == "square" or (c["geom"] == "uneven" and c["op"].startswith("rechunk"))]
+    rest = [c for c in tight if c not in first]
     ctx.rng.shuffle(rest)
     measure(ctx, first if ctx.tier == "quick" else first + rest[:120])
+
+
+def replay(ctx, body):
+    """./check C03 --replay replays/C03-<seed>-failing-input.json : re-measure the failing computation."""
+    case = (body.get("case") or {}).get("case")
+    if not case:
+        print("replay file has no measurement case")
+        return
+    r = memtrace.run_case(case)
+    if r["error"]:
+        print("case could not be run:", r["error"])
+        return
+    for o in r["ops"]:
+        if o["projected"] is not None:
+            print("%-14s %-13s projected_mem %10d  measured task peak %10d  ratio %.2f%s" % (
+                o["name"], o["op_name"], o["projected"], o["peak"], o["peak"] / max(o["projected"], 1), "   <-- exceeds" if o["peak"] > o["projected"] else ""))
+    twins = {}
+    if case["compressor"] == "default" and op_failures(r):
+        twins[0] = memtrace.run_case(dict(case, compressor="none"))
+    evaluate(ctx, [r], twins)
